@@ -35,6 +35,13 @@ theorem wrap_u8_id (v : Int) (h1 : 0 ≤ v) (h2 : v < 256) : wrap .u8 v = v := b
     obtain ⟨y, w⟩ := p
     by_cases h : x = y <;> simp [Env.get, Env.set, h, ih]
 
+@[simp] theorem Env.set_set_same (x : String) (v w : Val) (e : Env) : Env.set x w (Env.set x v e) = Env.set x w e := by
+  induction e with
+  | nil => simp [Env.set]
+  | cons p r ih =>
+    obtain ⟨y, u⟩ := p
+    by_cases h : x = y <;> simp [Env.set, h, ih]
+
 theorem Env.get_set_other (x y : String) (v : Val) (e : Env) (h : x ≠ y) : Env.get x (Env.set y v e) = Env.get x e := by
   induction e with
   | nil => simp [Env.get, Env.set, h]
@@ -555,6 +562,14 @@ def Stmt.lpost : Stmt → Stmt
   | _ => .skip
 def Stmt.lbody : Stmt → Stmt
   | .loop _ _ b => b
+  | _ => .skip
+
+/-- the first statement of a sequence / the rest: `s.tl.tl.hd` is the third top-level statement of a generated body -/
+def Stmt.hd : Stmt → Stmt
+  | .seq a _ => a
+  | s => s
+def Stmt.tl : Stmt → Stmt
+  | .seq _ b => b
   | _ => .skip
 
 def Stmt.rbody : Stmt → Stmt
